@@ -88,7 +88,7 @@ function attrQuote(text) {
 const PER_FILE = 300
 
 /** compile expression texts -> array of evaluators (data -> outcome) or {diag} when rejected */
-function compileTexts(texts) {
+function compileTexts(texts, scoped) {
   const jobs = []
   const layout = []
   for (let start = 0; start < texts.length; start += PER_FILE) {
@@ -98,7 +98,10 @@ function compileTexts(texts) {
       const q = attrQuote(t)
       if (q === null) { layout.push(null); src += '\n'; return }
       layout.push({ job: jobs.length, name: 't' + k })
-      src += `<template name="t${k}"><a v=${q}{{ ${t} }}${q}/></template>\n`
+      // scoped: the names a, b, c are the items of three nested loops instead of data fields
+      src += scoped
+        ? `<template name="t${k}"><block wx:for="{{la}}" wx:for-item="a"><block wx:for="{{lb}}" wx:for-item="b"><block wx:for="{{lc}}" wx:for-item="c"><a v=${q}{{ ${t} }}${q}/></block></block></block></template>\n`
+        : `<template name="t${k}"><a v=${q}{{ ${t} }}${q}/></template>\n`
     })
     jobs.push({ id: jobs.length, files: [['f', src]], want: ['groups'] })
   }
@@ -128,8 +131,10 @@ function compileTexts(texts) {
       eval(data) {
         return outcomeOf(() => {
           const rt = RT.makeRuntime()
-          const r = proc(rt.R, true, data, undefined)
-          const nodes = rt.runChildren(r.C)
+          const r = proc(rt.R, true, scoped ? { la: [data.a], lb: [data.b], lc: [data.c] } : data, undefined)
+          let nodes = rt.runChildren(r.C)
+          while (nodes.length && nodes[0].t !== 'el') nodes = nodes[0].children
+          if (!nodes.length) throw new Error('no element created')
           const a = nodes[0].attrs.find((x) => x[0] === 'attr' && x[1] === 'v')
           if (!a) throw new Error('no attribute delivered')
           return a[2]
@@ -341,16 +346,18 @@ function runShard(info, thorough) {
     const texts = []
     for (const i of idxs) texts.push(...spellings(all[i]))
     const evs = compileTexts(texts)
+    const scopedEvs = compileTexts(idxs.map((i) => M.printMin(all[i])), true)
     idxs.forEach((si, k) => {
       const e = all[si]
       const names = M.freeNames(e)
       let ref
       try { ref = M.compileRef(e) } catch (err) { rep.count('skipped:not-valid-javascript'); return }
       let minimalFailed = false
-      for (let v = 0; v < 3; v++) {
+      for (let v = 0; v < 4; v++) {
         if (v > 0 && minimalFailed) { rep.count('spelling-variants-skipped-after-a-failure'); continue }
-        const ev = evs[k * 3 + v]
-        const text = texts[k * 3 + v]
+        if (v === 3 && names.size === 0) continue
+        const ev = v === 3 ? scopedEvs[k] : evs[k * 3 + v]
+        const text = v === 3 ? texts[k * 3] : texts[k * 3 + v]
         rep.transitions += 1
         if (ev.skipped) { rep.count('skipped:' + ev.skipped); continue }
         if (ev.panic) { rep.machineryErrors.push('compiler panicked on ' + text + ': ' + JSON.stringify(ev.panic)); continue }
@@ -388,9 +395,9 @@ function runShard(info, thorough) {
           const s = shrink(e, thorough, f.kind)
           const se = s.f && s.f.env ? s : { e, f }
           const sn = M.freeNames(se.e)
-          const fp = `C03|${v === 0 ? '' : ['', 'fully-parenthesised:', 'with-comments:'][v]}${M.printMin(se.e)}|${envText(se.f.env, sn)}`
+          const fp = `C03|${v === 0 ? '' : ['', 'fully-parenthesised:', 'with-comments:', 'names-are-loop-items:'][v]}${M.printMin(se.e)}|${envText(se.f.env, sn)}`
           rep.violation(fp, `{{ ${M.printMin(se.e)} }} with ${envText(se.f.env, sn)}: generated code gives ${showOutcome(se.f.got)}, JavaScript gives ${showOutcome(se.f.exp)} (found on {{ ${text} }})`,
-            { engine: 'c03', expr: M.printMin(se.e), tree: se.e, env: se.f.env, original: text })
+            { engine: 'c03', expr: M.printMin(se.e), tree: se.e, env: se.f.env, original: text, scoped: v === 3 })
           if (v > 0) rep.count('spelling-variant-failures')
         }
       }
@@ -401,7 +408,7 @@ function runShard(info, thorough) {
 
 function replayOne(rec) {
   const e = rec.tree
-  const ev = compileTexts([M.printMin(e)])[0]
+  const ev = compileTexts([M.printMin(e)], !!rec.scoped)[0]
   if (!ev.eval) return { deterministic: true, failure: null, note: 'not accepted by the compiler any more' }
   const ref = M.compileRef(e)
   const run = () => { const d = dataOf(rec.env); const a = outcomeOf(() => ref(d, {})); const b = ev.eval(d); return [sameOutcome(a, b), showOutcome(a), showOutcome(b)] }
